@@ -5,6 +5,9 @@ pub mod c02;
 pub mod c03;
 pub mod c04;
 pub mod c05;
+pub mod c09;
+pub mod c10;
+pub mod c11;
 pub mod ppcommon;
 
 pub fn by_id(id: &str) -> Option<Box<dyn Prop>> {
@@ -14,10 +17,16 @@ pub fn by_id(id: &str) -> Option<Box<dyn Prop>> {
         "C03" => Some(Box::new(c03::C03)),
         "C04" => Some(Box::new(c04::C04)),
         "C05" => Some(Box::new(c05::C05)),
+        "C09" => Some(Box::new(c09::C09)),
+        "C10" => Some(Box::new(c10::C10)),
+        "C11" => Some(Box::new(c11::C11)),
         _ => None,
     }
 }
 
-pub fn worker(_args: &[String]) -> i32 {
-    2
+pub fn worker(args: &[String]) -> i32 {
+    match args.get(0).map(|s| s.as_str()) {
+        Some("pp") => c10::worker_pp(args.get(1).map(|s| s.as_str()).unwrap_or("")),
+        _ => 2,
+    }
 }
